@@ -181,6 +181,19 @@ def test_iterate_chunks_invalid():
     assert exc.value.args[0] == 'chunk_shape should fit within shape'
 
 
+def test_iterate_chunks_scalar():
+
+    # A 0-d array has exactly one element and hence exactly one chunk
+
+    assert list(iterate_chunks((), n_max=10)) == [()]
+    assert list(iterate_chunks((), chunk_shape=())) == [()]
+
+    array = np.zeros(())
+    for slices in iterate_chunks(array.shape, n_max=10):
+        array[slices] += 1
+    assert_equal(array, 1)
+
+
 FUNCTIONS = [nanmean, nanmedian, nanmin, nanmax, nansum]
 AXIS = [None, 0, 2, 3, (0, 1), (2, 3), (0, 1, 2), (0, 1, 2, 3)]
 ARRAY = np.random.random((4, 5, 2, 7))
